@@ -169,6 +169,50 @@ class Ctx:
         shutil.rmtree(os.path.join(d, "meta"), True)
         return res
 
+    def tlc_trace(self, module, cfg, trace_file, label, target, record_args=None, timeout=900, heap="4g"):
+        """Trace validation (B2): TLC checks that the recorded trace is a behaviour of the trace spec.
+        A rejection becomes a finding (rule = the event the specification cannot explain)."""
+        nlines = sum(1 for _ in open(trace_file))
+        try:
+            res = self.tlc(module, cfg, workers=1, timeout=timeout, trace_file=trace_file, heap=heap)
+            self.traces_validated += 1
+            self.evaluations += nlines
+            self.log("trace %s: %d events accepted by %s" % (label, nlines, module))
+            return True
+        except MachineryError as e:
+            msg = str(e)
+            m = re.search(r'TRACE-REJECTED at event[", ]+(\d+)[, ]+(.*?)>>', msg, re.S)
+            if not m:
+                raise
+            line = int(m.group(1))
+            ev = open(trace_file).read().splitlines()[line - 1]
+            # context: the events of the same trace since its reset
+            lines = open(trace_file).read().splitlines()
+            start = line - 1
+            while start > 0 and '"reset"' not in lines[start]:
+                start -= 1
+            keep = os.path.join(VERIF, "replays", self.pid)
+            os.makedirs(keep, exist_ok=True)
+            tpath = os.path.join(keep, "trace-%s-%d.ndjson" % (label.replace("/", "_"), line))
+            with open(tpath, "w") as fh:
+                fh.write("\n".join(lines[start:line]) + "\n")
+            evj = json.loads(ev)
+            tgt = target
+            try:
+                tgt = json.loads(lines[start]).get("via") or target
+            except Exception:
+                pass
+            key = "%s | trace:%s/%s | %s" % (tgt, evj.get("a"), evj.get("via", ""), str(evj.get("r"))[:40])
+            self.groups.append({"key": key, "label": label, "args": None, "in_flag": "-in",
+                                "group": {"count": 1, "first": [{"case": line, "step": line - start - 1, "target": tgt,
+                                          "rule": "trace:%s" % evj.get("a"), "class": str(evj.get("r")),
+                                          "detail": "TLC rejects the recorded trace at event %d: %s (the specification "
+                                                    "cannot explain this result in the state reached; trace prefix saved in %s)"
+                                                    % (line, ev, tpath)}]}})
+            self.evaluations += line
+            self.log("trace %s: REJECTED at event %d: %s" % (label, line, ev))
+            return False
+
     def tlc_parallel(self, jobs, max_procs=8):
         """jobs: list of kwargs dicts for self.tlc; run concurrently; returns results in order."""
         with ThreadPoolExecutor(max_workers=max_procs) as ex:
